@@ -129,6 +129,24 @@ theorem stmt_step (t : Typed P tm) {n : Nat} (ih : ∀ m, m ≤ n → EvalOK P t
       cases hl : lookup x Γ with
       | none => rfl
       | some _ => rw [hl] at hnone; simp at hnone
+  | infer x e =>
+    simp only [tcS] at htc
+    cases hx : C.decl[x]? with
+    | none => rw [hx] at htc; simp at htc
+    | some Tx =>
+      rw [hx] at htc
+      simp only [bind_ok, req_ok, pure_ok] at htc
+      obtain ⟨_, hnone, r0, hr0, _, hsub, hr⟩ := htc
+      subst hr
+      simp only [Bool.and_eq_true] at hsub
+      simp only [evalS]
+      refine sat_bind (ihn.expr k C Γ false false e r0 σ st rfl hr0 hrecs hst) ?_
+      intro st1 v e1 hv
+      apply sat_pure
+      refine ⟨Γ, rfl, (hst.ext e1).declare hx ?_ (subTy_sound w hsub.1.2 hv.1)⟩
+      cases hl : lookup x Γ with
+      | none => rfl
+      | some _ => rw [hl] at hnone; simp at hnone
   | assign x e =>
     simp only [tcS] at htc
     cases hx : C.decl[x]? with
